@@ -330,6 +330,15 @@ def r4(ctx):
             faithful, why = False, "guard local is not initialised to false"
         for x in walk(fn["body"]):
             if x.get("k") == "assign" and e4.local_hid(x["l"]) == ghid:
+                r_ = strip(x["r"])
+                if r_ is not None and r_.get("k") == "bin" and r_["op"] == "Or":
+                    # `guard = guard || layer.training` (either order): becomes true only if a flag was read true
+                    l0, r0 = strip(r_["l"]), strip(r_["r"])
+                    sides = [l0, r0]
+                    keeps = [y for y in sides if e4.local_hid(y) == ghid]
+                    flags = [y for y in sides if y is not None and y.get("k") == "field" and y["f"] == FLAG]
+                    if len(keeps) == 1 and len(flags) == 1:
+                        continue
                 if e4.lit_value(x["r"]) != "true":
                     faithful, why = False, "guard local assigned a non-literal"
                     continue
